@@ -126,7 +126,7 @@ pub struct ChanReceiver<T> { pub queue: Ghost<Seq<T>>, pub closed: Ghost<bool> }
 impl<T> ChanReceiver<T> {
     #[verifier::external_body]
     pub fn close(&mut self, Ghost(reason_recorded): Ghost<bool>)
-        requires reason_recorded,        // [C13.session.stop-reason-before-links-closed] the links learn of the session's end through the closure of this channel: the reason they will report (the peer's error in particular) is recorded BEFORE the channel is closed, never after
+        requires reason_recorded,        // [C13.session.stop-reason-before-links-closed] [C14.stop-reason.published-before-channels-close] the links learn of the session's end through the closure of this channel: the reason they will report (the peer's error in particular) is recorded BEFORE the channel is closed, never after
         ensures final(self).queue@ == old(self).queue@, final(self).closed@,
     { unimplemented!() }
     #[verifier::external_body]
@@ -530,7 +530,7 @@ impl SessionEngine {
             Err(SessionInnerError::RemoteEndedWithError(error)) => SessionStopReason::RemoteEndedWithError(error),
             Err(SessionInnerError::RemoteEnded) => SessionStopReason::RemoteEnded,
             _ => SessionStopReason::Ended,
-        }),                                                                                                       // [C13.session.stop-reason-matches-outcome] the links of a stopped session are told why: the peer's End (with its error), the connection's stop reason, or a plain end
+        }),                                                                                                       // [C13.session.stop-reason-matches-outcome] [C14.stop-reason.says-who-stopped-and-why] the links of a stopped session are told why: the peer's End (with its error), the connection's stop reason, or a plain end
         final(self).outgoing.sent@ == old(self).outgoing.sent@,                                                    // [C13.session.nothing-after-end] tearing the engine down writes nothing on the session's channel
 //@@ end
 }
@@ -561,7 +561,7 @@ impl SessOutcomeTx {
     pub fn send(self, r: Result<(), SessError>) -> (o: Result<(), Result<(), SessError>>)
         requires
             self.outcome@ is Ok ==> r is Ok,                                                                            // [C13.session.result.clean-end-reported-clean]
-            self.outcome@ is Err && self.outcome@->Err_0 is RemoteEndedWithError ==> r == Err::<(), SessError>(SessError::RemoteEndedWithError(self.outcome@->Err_0->RemoteEndedWithError_0)),   // [C13.session.result.peer-end-error-reported] an error carried by the peer's End is what end() / on_end() returns
+            self.outcome@ is Err && self.outcome@->Err_0 is RemoteEndedWithError ==> r == Err::<(), SessError>(SessError::RemoteEndedWithError(self.outcome@->Err_0->RemoteEndedWithError_0)),   // [C13.session.result.peer-end-error-reported] [C14.handle.reports-peer-error] an error carried by the peer's End is what end() / on_end() returns
             self.outcome@ is Err && self.outcome@->Err_0 is RemoteEnded ==> r == Err::<(), SessError>(SessError::RemoteEnded),
     { unimplemented!() }
 }
